@@ -6,7 +6,9 @@
   version-coded content, grids and conditioning arguments are version numbers, an evaluation
   (`call`, `disp`) yields the versions it used (`Obs`).
 
-  What is transcribed (branch by branch, as the code stands):
+  What is transcribed (branch by branch, as the code stands AFTER the repairs 1ce28a8 — B-spline
+  `grid_` clears the buffers —, 3110eb9 — `__copy__` copies the `_parameters` container —, 20bab42 —
+  `link_` deletes a registered parameter `params` first):
     src/deepali/spatial/base.py        SpatialTransform.__copy__ @53-71, condition_ @97-102,
                                        grid_ @131-139, _update_hook/register_update_hook @391-399,
                                        NonRigidTransform.tensor @498-525, clear_buffers @545-553
@@ -102,8 +104,10 @@ inductive UBuf
   | snap (o : Obs) | view (cell grid : Nat) (inverted : Bool)
   deriving DecidableEq, Repr
 
-/-- one SpatialTransform instance. `pdict` is the id of the `_parameters` container, which
-    `__copy__` SHARES; `slot`, `p`, `u`, `v` live in containers that `__copy__` copies. -/
+/-- one SpatialTransform instance. `pdict` is the id of its `_parameters` container; `slot`, `p`,
+    `u`, `v` live in `__dict__`/`_buffers`/`_modules`. `__copy__` copies ALL these containers
+    (fix 3110eb9: `_parameters` too — the copy gets a new container holding the same entries, so
+    the Parameter *tensors* stay shared, the registration does not). -/
 structure Obj where
   cls : Cls
   pdict : Nat
@@ -146,6 +150,10 @@ def World.setCell (w : World) (k : Nat) (c : Content) : World :=
 
 def World.setPdict (w : World) (k : Nat) (e : Option Nat) : World :=
   { w with pdicts := fun i => if i = k then some e else w.pdicts i }
+
+/-- `del self._parameters["params"]` -/
+def World.delPdict (w : World) (k : Nat) : World :=
+  { w with pdicts := fun i => if i = k then none else w.pdicts i }
 
 /-- `self.params`: instance `__dict__` first, then `Module.__getattr__`: `_parameters`,
     `_buffers`, `_modules`. (`absent` with no shared key would be an AttributeError; every
@@ -310,31 +318,46 @@ def tensorMembers (w : World) : List Nat → World × Except Err (List Obs)
       | (w'', .ok obs) => (w'', .ok (ob :: obs))
       | (w'', .error e) => (w'', .error e)
 
-/-- base.py `__copy__` @66-71: shares `_parameters` (same `pdict`), copies `_buffers`/`_modules`/`__dict__`. -/
-def copyObj (w : World) (o : Obj) : World × Nat := w.addObj o
+/-- base.py `__copy__` @66-71: copies `__dict__`, `_parameters`, `_buffers`, `_modules` (containers,
+    not the objects registered in them). -/
+def copyRec (w : World) (o : Obj) : Obj := { o with pdict := w.nDict }
 
-/-- parametric.py `link_` @241-274. Returns the (possibly partially modified) world and an error. -/
+/-- the shallow copy: a NEW `_parameters` container (id `w.nDict`) with the same entry, the record
+    `copyRec w o` stored under the next object id. -/
+def World.copyDict (w : World) (k : Nat) : World :=
+  { w with pdicts := fun i => if i = w.nDict then w.pdicts k else w.pdicts i, nDict := w.nDict + 1 }
+
+def copyObj (w : World) (o : Obj) : World × Nat :=
+  (w.copyDict o.pdict).addObj (copyRec w o)
+
+/-- parametric.py `link_` from `self.params = other` on (@265-274): assign through `__setattr__`,
+    then make sure a buffer `p` exists. Returns the (possibly partially modified) world and an error. -/
+def linkCore (w : World) (id : Nat) (o : Obj) (oid : Nat) (other : Obj) : World × Option Err :=
+  match setParams w o (.obj oid) with
+  | .error e => (w, some e)
+  | .ok (w1, o1) =>
+    match o1.p with
+    | some _ => (w1.setObj id o1, none)
+    | none =>
+      match w1.lookup other with
+      | .none =>
+        -- p = torch.empty(...); register; reset_parameters(): zero `p`, clear buffers
+        let (w2, c) := w1.newCell (.lit 0) o1.grid
+        (clearLeaf (w2.setObj id { o1 with p := some c }) id, none)
+      | _ =>
+        match dataCell w1 other with
+        | .ok c => (w1.setObj id { o1 with p := some c }, none)
+        | .error e => (w1.setObj id o1, some e)
+
+/-- parametric.py `link_` @241-274: the checks, then (fix 20bab42)
+    `if "params" in self._parameters: del self._parameters["params"]`, then `linkCore`. -/
 def linkInto (w : World) (id : Nat) (o : Obj) (oid : Nat) : World × Option Err :=
   if oid = id then (w, some .value) else
   match w.objs oid with
   | none => (w, some .noobj)
   | some other =>
     if other.cls.pyType ≠ o.cls.pyType then (w, some .type) else
-    match setParams w o (.obj oid) with
-    | .error e => (w, some e)
-    | .ok (w1, o1) =>
-      match o1.p with
-      | some _ => (w1.setObj id o1, none)
-      | none =>
-        match w1.lookup other with
-        | .none =>
-          -- p = torch.empty(...); register; reset_parameters(): zero `p`, clear buffers
-          let (w2, c) := w1.newCell (.lit 0) o1.grid
-          (clearLeaf (w2.setObj id { o1 with p := some c }) id, none)
-        | _ =>
-          match dataCell w1 other with
-          | .ok c => (w1.setObj id { o1 with p := some c }, none)
-          | .error e => (w1.setObj id o1, some e)
+    linkCore (if (w.pdicts o.pdict).isSome then w.delPdict o.pdict else w) id o oid other
 
 /-- parametric.py `unlink_` @280-285. -/
 def unlinkInto (w : World) (id : Nat) (o : Obj) : Except Err World :=
@@ -378,12 +401,15 @@ def gridSet (w : World) (id : Nat) (o : Obj) (g : Nat) : World × Option Err :=
     | .param c | .tensor c =>
       if g = o.grid then (w, none)                    -- same size everywhere: `_grid = grid`, nothing else
       else if g = o.grid + 1 then
-        let w1 := w.setObj id { o with grid := g }
-        match dataSet w1 id { o with grid := g } (w.cells c) with
+        -- fix 1ce28a8: `if self._grid != grid: self.clear_buffers()`, then `_grid = grid`, then `data_`
+        let w1 := w.setObj id { o with u := none, v := none, grid := g }
+        match dataSet w1 id { o with u := none, v := none, grid := g } (w.cells c) with
         | .ok w2 => (w2, none)
         | .error e => (w1, some e)
       else (w, some .value)
-    | _ => (w.setObj id { o with grid := g }, none)     -- NOT cleared (finding C09:grid_:BSpline:non-tensor)
+    | _ =>
+      if g = o.grid then (w, none)
+      else (w.setObj id { o with u := none, v := none, grid := g }, none)
   else
     match w.lookup o with
     | .param c | .tensor c =>
@@ -442,7 +468,8 @@ def invFinish (w : World) (oi : Obj) (inv ub : Bool) : Obj :=
 def inverseLeaf (w : World) (id : Nat) (o : Obj) (link ub : Bool) : Except Err (World × Nat) :=
   if o.cls.invertible then
     let nid := (copyObj w o).2
-    let r : World × Option Err := if link then linkInto (copyObj w o).1 nid o id else ((copyObj w o).1, none)
+    let r : World × Option Err :=
+      if link then linkInto (copyObj w o).1 nid (copyRec w o) id else ((copyObj w o).1, none)
     match r.2 with
     | some e => .error e
     | none =>
@@ -534,7 +561,7 @@ def step (w : World) : Op → World × Out
         let (w1, cid) := copyObj w o
         match inverseMembers w1 link ub o.members.reverse with
         | .error e => (w, .err e)
-        | .ok (w2, ids) => (w2.setObj cid { o with members := ids }, .new cid)
+        | .ok (w2, ids) => (w2.setObj cid { copyRec w o with members := ids }, .new cid)
       | .multi => (w, .err .notimpl)
       | _ =>
         match inverseLeaf w id o link ub with
@@ -555,7 +582,7 @@ def step (w : World) : Op → World × Out
       if o.cls.isComposite then (w, .err .attr) else
       if (w.objs b).isNone then (w, .err .noobj) else
       let (w1, n) := copyObj w o
-      match linkInto w1 n o b with
+      match linkInto w1 n (copyRec w o) b with
       | (w', none) => (w', .new n)
       | (_, some e) => (w, .err e)
   | .unlink_ id =>
@@ -572,7 +599,7 @@ def step (w : World) : Op → World × Out
     | some o =>
       if o.cls.isComposite then (w, .err .attr) else
       let (w1, n) := copyObj w o
-      match unlinkInto w1 n o with
+      match unlinkInto w1 n (copyRec w o) with
       | .ok w' => (w', .new n)
       | .error e => (w, .err e)
   | .data_ id v =>
@@ -592,8 +619,9 @@ def step (w : World) : Op → World × Out
       let cur := w.lookup o
       if cur.callable && o.p.isNone then (w, .err .attr) else
       let oc : Obj := if cur.callable then { o with p := none } else o
-      -- the shallow copy gets the next id; it enters the world once `assignData` has stored it
-      match assignData { w with nObj := w.nObj + 1 } w.nObj oc cur (.lit v) with
+      -- the shallow copy (new `_parameters` container, next id) enters the world once `assignData`
+      -- has stored it
+      match assignData { w.copyDict oc.pdict with nObj := w.nObj + 1 } w.nObj (copyRec w oc) cur (.lit v) with
       | .error e => (w, .err e)
       | .ok w' => (w', .new w.nObj)
   | .dataGet id =>
@@ -624,7 +652,7 @@ def step (w : World) : Op → World × Out
     | none => (w, .err .noobj)
     | some o =>
       let (w1, n) := copyObj w o
-      match gridSet w1 n o g with
+      match gridSet w1 n (copyRec w o) g with
       | (w', none) => (w', .new n)
       | (_, some e) => (w, .err e)
   | .condition_ id c =>
